@@ -83,7 +83,7 @@ Qed.
 (* readObjectAtOffset (model) on every written object that is not a stream and is an array or a dictionary of the
    bridge's class: at the offset recorded for it in the table it returns that object under its new number, generation
    0, with no warning. *)
-Lemma rd_read_at_written_lemma : forall d e resolve id i,
+Lemma rd_read_at_written_step : forall d e resolve id i,
   rde_file e = WOUT d -> bytes_ok (WOUT d) ->
   doc_closed d -> In id (w_ids d) -> find_obj (d_objects d) id = Some i -> i_stream i = None ->
   (Z.of_N (doc_ren d id) <= 2147483647)%Z ->
